@@ -524,3 +524,63 @@ class Scope:
             if isinstance(p, ast.stmt):
                 return p
         return None
+
+
+NONUNIQUE_MARKERS = ("__qualname__", "__name__", "__module__", ".stem", ".name", "fn_name")
+
+
+def memo_tables(mod: "ModuleInfo"):
+    """Module-level mutable containers that functions of the module write into (memo caches, registries).
+
+    Yields (table name, function qualname, key expression text expanded through local definitions, store node).
+    """
+    tables = set()
+    for n in mod.tree.body:
+        tgt = None
+        val = None
+        if isinstance(n, ast.Assign) and len(n.targets) == 1 and isinstance(n.targets[0], ast.Name):
+            tgt, val = n.targets[0].id, n.value
+        elif isinstance(n, ast.AnnAssign) and isinstance(n.target, ast.Name) and n.value is not None:
+            tgt, val = n.target.id, n.value
+        if tgt and (isinstance(val, (ast.Dict, ast.List, ast.Set)) and not getattr(val, "keys", getattr(val, "elts", [])) or
+                    (isinstance(val, ast.Call) and norm(val.func) in ("dict", "list", "set", "defaultdict", "collections.defaultdict", "OrderedDict", "WeakValueDictionary", "weakref.WeakValueDictionary"))):
+            tables.add(tgt)
+    for qual, fn in mod.functions.items():
+        defs = {}
+        for s in walk_no_nested(fn):
+            if isinstance(s, ast.Assign) and isinstance(s.targets[0], ast.Name):
+                defs[s.targets[0].id] = s.value
+            if isinstance(s, ast.NamedExpr):
+                defs[s.target.id] = s.value
+
+        def expand(e, depth=0):
+            t = norm(e)
+            if depth > 3:
+                return t
+            for x in ast.walk(e):
+                if isinstance(x, ast.Name) and x.id in defs:
+                    t = t.replace(x.id, "(" + expand(defs[x.id], depth + 1) + ")")
+            return t
+
+        for s in walk_no_nested(fn):
+            targets = []
+            if isinstance(s, ast.Assign):
+                targets = [t for t in s.targets if isinstance(t, ast.Subscript)]
+            for t in targets:
+                if isinstance(t.value, ast.Name) and t.value.id in tables:
+                    yield t.value.id, qual, expand(t.slice), t
+            if isinstance(s, ast.Call) and isinstance(s.func, ast.Attribute) and isinstance(s.func.value, ast.Name) and s.func.value.id in tables \
+                    and s.func.attr in ("setdefault", "update", "append", "add") and s.args:
+                yield s.func.value.id, qual, expand(s.args[0]), s
+
+
+def classify_memo_key(key_text: str) -> str:
+    """'nonunique' | 'path-only' | 'ok'."""
+    if any(m in key_text for m in NONUNIQUE_MARKERS):
+        return "nonunique"
+    if ("resolve()" in key_text or "absolute()" in key_text or "str(file" in key_text) and "read_bytes" not in key_text and "read_text" not in key_text:
+        return "path-only"
+    return "ok"
+
+
+MEMO_DECORATORS = ("cache", "lru_cache", "functools.cache", "functools.lru_cache", "cached", "memoize")
